@@ -67,3 +67,13 @@ claim("C06",
       "Trusted: rustc MIR; std axioms listed in evidence (floor/ceil/trunc/round/abs/copysign/min/max/clamp preserve finiteness; frexp mantissa); "
       "public constructor Value::number is the library boundary.",
       "DESIGN.md §2 C06")
+claim("C10",
+      "who-may-construct/write/read queries, weighted-CFG (push/delay) balance analysis with callee summaries, ThunkState decision table, call-graph SCCs",
+      "Decides structural necessary conditions of C10: (R1) the frame counter changes only through push_trace_item/delay_trace_item and the two "
+      "trace-item states, max_stack is read only by the single strict limit test that every evaluator iteration passes and whose true edge is "
+      "StackOverflow (so raising the limit can change nothing else); (R2) in every Evaluator method no delay precedes its push and no loop has a "
+      "positive net number of pushed trace items, so the counter measures nesting and never the number of sibling elements; (R3) an in-progress "
+      "thunk is reported as infinite recursion, a finished one is not re-evaluated; (R4) no native recursion in evaluator/data/gc code. "
+      "That every value-dependent nesting passes through a trace item is not decided.",
+      "Trusted: rustc MIR; callee summaries computed over non-error return paths; the outer state-machine loop of run is not a per-element loop.",
+      "DESIGN.md §2 C10")
